@@ -543,7 +543,7 @@ def run(ctx):
     longl = [(ctx.tier, ctx.seed, 3, w, k0, 3 if ctx.thorough else 2, "long_lines") for w in (48, 60) for k0 in (0, 2, 4)]
     for d in ctx.pmap(explore_wide, longl):
         rep.merge(d, "long_lines_sharing_prefixes")
-    rept = [(ctx.tier, ctx.seed, h, 2, k0, 2, "repeating_rows") for h in (2, 3) for k0 in range(0, h + 1)]
+    rept = [(ctx.tier, ctx.seed, h, 2, k0, 3, "repeating_rows") for h in (2, 3) for k0 in range(0, h + 1)]
     for d in ctx.pmap(explore_wide, rept):
         rep.merge(d, "rows_that_repeat_from_render_to_render")
     tall = [(ctx.tier, ctx.seed, h, 8, k0, 2, "tall_arrays") for h in (3, 5) for k0 in range(0, h + 2)]
